@@ -135,9 +135,63 @@ def _mutations(s, salt):
     return out
 
 
+BEM_FRAGS = {".b", ".-e", "._m", ".b__x", ".--e2", ".a-b", ".-e_m", ".b_m1_m2", ".__m", ".c.-e", "#i"}
+
+
+def _bem_chunk(vecs):
+    import emmet
+    from emmet.scanner import ScannerException
+    from emmet.token_scanner import TokenScannerException
+    out = []
+    for v in vecs:
+        try:
+            with common.Alarm(10):
+                got = emmet.expand(v['s'], {'options': {'bem.enabled': True, 'output.format': False}})
+        except (ScannerException, TokenScannerException):
+            out.append(('parse-error', v['s'], None))
+            continue
+        except Exception as ex:
+            out.append(('internal', v['s'], [type(ex).__name__, common.innermost_emmet_frame(ex)]))
+            continue
+        if got != v['bem']:
+            out.append(('differs', v['s'], [v['bem'], got]))
+    return out
+
+
+def _bem_model(out, quick):
+    """the BEM addon as a specification (AbbrBem.tla on the transcribed pipeline): every abbreviation of the documented grammar over
+    BEM class fragments is expanded with bem.enabled; an internal error - or a parse error, the abbreviations are valid - is a
+    violation, a difference to the model's markup a diagnostic (no listed property fixes what BEM rewriting must produce)"""
+    consts = dict(NameFr={"x", ""}, ModFr=BEM_FRAGS, RepFr={"*2"}, OpFr={">", "+", "^"}, MaxGroups=0, MaxMods=2, MaxFrag=4 if quick else 5,
+                  ScChild=False, SelfClosingStyle='html', TreeOnly=False, RepeatLimit=1000000)
+    r = common.run_tlc('AbbrGrammarBem', constants=consts, timeout=3000, heap='12g')
+    if r.violated:
+        out.add_tlc('bem-model', r)
+        out.violation('spec-invariant %s violated in the model' % r.violated, {'instance': 'bem-model', 'tlc': r.error[:2000]})
+        return
+    vecs = {}
+    for v in r.vectors():
+        vecs.setdefault(v['s'], v)
+    r.tagged = {}
+    res = common.pool_map(_bem_chunk, list(vecs.values()), chunk=500)
+    diff = [x for x in res if x[0] == 'differs']
+    for kind, s, info in res:
+        if kind == 'internal':
+            out.violation('outcome: internal-error', {'input': s, 'language': 'markup', 'configuration': 'bem (grammar)', 'kind': 'internal', 'pos': -1,
+                                                      'exception': info[0], 'site': info[1], 'instance': 'bem-model'})
+        elif kind == 'parse-error':
+            out.violation('outcome: parse error on an abbreviation of the documented grammar', {'input': s, 'configuration': 'bem (grammar)', 'instance': 'bem-model'})
+    out.add_tlc('bem-model', r, abbreviations=len(vecs),
+                model_differs_from_code={'count': len(diff), 'examples': [[s, i] for _, s, i in sorted(diff, key=lambda x: len(x[1]))[:4]]})
+    out.evaluations += len(vecs)
+    if diff:
+        out.diag('model-vs-code: bem markup', len(diff))
+
+
 def run(out):
     quick = out.tier == 'quick'
     QUICK[0] = quick
+    _bem_model(out, quick)
     out.rule = ('one trace per input string (all strings up to the bound over a 26-symbol markup and a 26-symbol stylesheet alphabet, '
                 'simulated longer structural strings, all sequences of syntactic fragments up to the bound (Fragments.tla), one-character mutations of the abbreviation literals of the repository tests), '
                 'one event per configuration; non-trivial = the string is not rejected by the parser under the first configuration; '
